@@ -350,10 +350,14 @@ def rule_replace_atomic(cx, tier):
     for fn in cx.F.fns.values():
         if fn.crate.uname != "koto_runtime" or fn.derived:
             continue
-        sr = [c for c in fn.calls() if (c.pretty or "").rsplit("::", 1)[-1] == "swap_remove_index"]
+        sr = [c for c in fn.calls() if (c.pretty or "").rsplit("::", 1)[-1] in ("swap_remove_index", "shift_remove_index")]
         if not sr:
             continue
         sw = {c.bb for c in fn.calls() if (c.pretty or "").rsplit("::", 1)[-1] == "swap_indices"}
+        if not sw:
+            # the order-preserving spelling (shift_remove_index; shift_insert / insert) is complete at the insertion
+            sw = {c.bb for c in fn.calls() if (c.pretty or "").rsplit("::", 1)[-1] in ("shift_insert", "insert", "insert_full")
+                  and any(c.bb in cx.cfg(fn).reachable_after(x.bb) for x in sr)}
         cfg = cx.cfg(fn)
         exits = set(cfg.exits)
         label = cx.label(fn)
@@ -368,6 +372,6 @@ def rule_replace_atomic(cx, tier):
                               "`?`) after swap_remove_index has removed the old entry and before swap_indices has put the "
                               "new one in its place: a caught error leaves the map without the entry and with its last "
                               "entry moved", fn.file, c.line, [f"bb{b} {fn.file}:{line_of(fn, b)}" for b in p][-12:]))
-    r.analysed = {"swap_remove_index_sites": n}
-    r.floor("swap_remove_index sites in koto_runtime", n, 1)
+    r.analysed = {"remove_by_index_sites": n}
+    r.floor("swap_remove_index / shift_remove_index sites in koto_runtime", n, 1)
     return r
